@@ -58,6 +58,9 @@ CLAIMS = {
     "C17": ("proof", "4.C17", "abstract interpretation of set_claim / verify_ready_to_build + who-writes (monotone flag invariant) + CFG dominance in the 8 build methods",
             "The history quantifier is discharged by an invariant (flag set <=> a key was inserted twice; flag set => build fails first) whose preservation by every method is checked; all obligations must be discharged.",
             "trusted: HashSet::insert semantics; get_key purity for user-defined claims"),
+    "C19": ("proof", "4.C19", "type checker as oracle over a generated compile-fail / compile-pass matrix + closed-world impl-header audit over the driver's facts",
+            "Every generated mixing program must be rejected by rustc inside its function with a type / bound / method error and every matching twin must type-check; the audit covers all programs: every way to obtain or consume a key type is in a frozen table. All obligations must be discharged.",
+            "trusted: rustc; coherence (the crate's impl set is closed)"),
     "C20": ("proof", "4.C20", "type checker as oracle over the feature lattice (cargo check of a generated client) + cfg lint + API-growth comparison of driver facts",
             "Every configuration of the tier is type-checked (quick: singletons, pairs, full set, specials; thorough: all 255 subsets x 3 layers); obligations = configurations + cfg predicates + api items, all must be discharged. The run-time clause (round trips) is not decided.",
             "trusted: rustc/cargo; the generated smoke client stands for client code"),
